@@ -14,6 +14,9 @@ Inductive case :=
           (last : csnap) (obs : res unit)
 (* validateConsensusTransactionReferences *)
 | CRefs (s : ksnap) (tx : ktx) (last : csnap) (obs : res unit)
+(* validateSnapshotTransaction on a real node: members in processing order,
+   each stored in persistent storage or only cached (with its Validate outcome) *)
+| CSnapTx (mainnet : bool) (s : ksnap) (ms : list member) (finalized : bool) (last : csnap) (obs : res unit)
 (* a sequence of WriteConsensusSnapshot calls from the records [init];
    per call the observed outcome; [final] the records read back *)
 | CChain (init : list crec) (ops : list (cop * res unit)) (final : list crec).
@@ -54,6 +57,11 @@ Definition check (c : case) : bool :=
          refuse; everywhere else the outcome must be the model's *)
       let mt := validate_kernel_snapshot mainnet s found fin last true in
       let mf := validate_kernel_snapshot mainnet s found fin last false in
+      if res_class_eqb mt mf then res_class_eqb mt obs
+      else match obs with Panic => false | _ => true end
+  | CSnapTx mainnet s ms fin last obs =>
+      let mt := snapshot_tx_rules mainnet s fin last true [] ms in
+      let mf := snapshot_tx_rules mainnet s fin last false [] ms in
       if res_class_eqb mt mf then res_class_eqb mt obs
       else match obs with Panic => false | _ => true end
   | CRefs s tx last obs => res_class_eqb (validate_consensus_refs s tx last) obs
